@@ -497,8 +497,15 @@ class LsColors(cabc.MutableMapping):
     def __getitem__(self, key):
         return self._d[key]
 
-    def __setitem__(self, key, value):
+    def _invalidate_exported(self):
+        """Forget the export string - and the mapping the environment caches
+        for child processes, which contains it."""
         self._detyped = None
+        if XSH.env is not None:
+            XSH.env._detyped = None
+
+    def __setitem__(self, key, value):
+        self._invalidate_exported()
         old_value = self._d.get(key, None)
         self._targets.discard(key)
         if value == LsColors.target_value:
@@ -511,7 +518,7 @@ class LsColors(cabc.MutableMapping):
             events.on_lscolors_change.fire(key=key, oldvalue=old_value, newvalue=value)
 
     def __delitem__(self, key):
-        self._detyped = None
+        self._invalidate_exported()
         old_value = self._d.get(key, None)
         self._targets.discard(key)
         del self._d[key]
